@@ -33,6 +33,7 @@ class ParserState:
     __slots__ = (
         "_pos_history",
         "_suppress_failures",
+        "_tag_history",
         "atomic_depth",
         "furthest_expected",
         "furthest_pos",
@@ -64,6 +65,7 @@ class ParserState:
         self.furthest_stack: list[Rule | RuleFrame] = []
 
         self._pos_history: list[int] = []
+        self._tag_history: list[tuple[str, ...]] = []
         self._suppress_failures = False
         self.atomic_depth = SnapshottingInt()
         self.rule_stack = Stack[Rule | RuleFrame]()  # RuleFrame is for generated code.
@@ -123,6 +125,7 @@ class ParserState:
         self.rule_stack.snapshot()
         self.atomic_depth.snapshot()
         self._pos_history.append(self.pos)
+        self._tag_history.append(tuple(self.tag_stack))
 
     def ok(self) -> None:
         """Commit to the current state after a successful parse.
@@ -134,6 +137,7 @@ class ParserState:
         self.rule_stack.drop_snapshot()
         self.atomic_depth.drop()
         self._pos_history.pop()
+        self._tag_history.pop()
 
     def restore(self) -> None:
         """Restore the state to the most recent checkpoint.
@@ -145,6 +149,7 @@ class ParserState:
         self.rule_stack.restore()
         self.atomic_depth.restore()
         self.pos = self._pos_history.pop()
+        self.tag_stack = list(self._tag_history.pop())
 
     def push(self, value: str) -> None:
         """Push a value onto the user stack.
